@@ -44,6 +44,18 @@ def known_match(known, pid, g):
     return None
 
 
+def _sweep_tmp():
+    """cbmc's SMT back ends leave /tmp/smt2_dec_* files behind when a portfolio loser is killed; remove stale ones (> 30 min)."""
+    import glob
+    now = time.time()
+    for f in glob.glob('/tmp/smt2_dec_*'):
+        try:
+            if now - os.path.getmtime(f) > 1800:
+                os.remove(f)
+        except OSError:
+            pass
+
+
 def main(argv=None):
     ap = argparse.ArgumentParser()
     ap.add_argument('prop')
@@ -154,6 +166,7 @@ def main(argv=None):
     nob = sum(len(g.result.get('obligations', [])) for g in groups)
     print('%s: %d groups, %d obligations, %d violations, %d known, %d undecided, %.1fs'
           % (pid, len(groups), nob, len(violations), len(known_lines), len(undecided), wall))
+    _sweep_tmp()
     if violations:
         return 1
     if undecided:
